@@ -363,6 +363,68 @@ impl<'a> Visitor for Enumerate<'a> {
     }
 }
 
+/// conversions: a checked / unchecked narrowing (and the identity conversion) must treat an absent
+/// part exactly like explicit zeros
+macro_rules! conv_bisim {
+    ($st:expr, $sup:ty, $sub:ty, $fsub:ty, $d:expr) => {{
+        use simba::scalar::SupersetOf;
+        let d: Dims = $d;
+        let lp = <$sup as Subject<f64>>::layout(d);
+        let ls = <$sub as Subject<$fsub>>::layout(d);
+        for a in alpha_alphabet::<f64>(&lp, &[2.0, -0.5], 0) {
+            let encs = encodings(&lp, &a);
+            let mut first: Option<(bool, bool, Vec<f64>, Vec<f64>)> = None;
+            for p in &encs {
+                let x: $sup = <$sup as Subject<f64>>::build(d, p);
+                $st.evaluations += 3;
+                $st.transitions += 3;
+                $st.state(hash64(&(lp.type_name.as_str(), "convert", ls.type_name.as_str(), p.bits(), p.present.clone())));
+                let member = <$sup as SupersetOf<$sub>>::is_in_subset(&x);
+                let checked: Option<$sub> = <$sup as SupersetOf<$sub>>::to_subset(&x);
+                let unchecked: $sub = <$sup as SupersetOf<$sub>>::to_subset_unchecked(&x);
+                let up = <$sub as Subject<$fsub>>::parts(&unchecked, d);
+                let uv: Vec<f64> = (0..ls.nslots()).map(|i| up.alpha(&ls, i) as f64).collect();
+                let cv: Vec<f64> = match &checked {
+                    Some(c) => {
+                        let cp = <$sub as Subject<$fsub>>::parts(c, d);
+                        (0..ls.nslots()).map(|i| cp.alpha(&ls, i) as f64).collect()
+                    }
+                    None => vec![],
+                };
+                let cur = (member, checked.is_some(), uv, cv);
+                match &first {
+                    None => first = Some(cur),
+                    Some(f0) => {
+                        if *f0 != cur {
+                            $st.violation(Violation {
+                                sig: format!("convert {} -> {} encodings-disagree", lp.type_name, ls.type_name),
+                                case: json!({"type": lp.type_name, "target": ls.type_name, "value": parts_to_json(p)}),
+                                what: format!("conversion of the encoding with presence {:?} gives (is_in_subset, is_some, unchecked parts, checked parts) = {:?}, the all-explicit encoding gives {:?}", p.present, cur, f0),
+                            });
+                            break;
+                        }
+                    }
+                }
+            }
+            if encs.len() > 1 {
+                $st.nontrivial(hash64(&(lp.type_name.as_str(), "convert", ls.type_name.as_str(), a.vals.iter().map(|v| v.to_bits()).collect::<Vec<_>>())));
+            }
+        }
+    }};
+}
+
+fn conversions(st: &mut Stats) {
+    use nalgebra::{Const, Dyn};
+    use num_dual::*;
+    conv_bisim!(st, DualVec<f64, f64, Const<2>>, DualVec<f32, f32, Const<2>>, f32, Dims::n(2));
+    conv_bisim!(st, DualVec<f64, f64, Const<2>>, DualVec<f64, f64, Const<2>>, f64, Dims::n(2));
+    conv_bisim!(st, DualVec<f64, f64, Dyn>, DualVec<f32, f32, Dyn>, f32, Dims::n(3));
+    conv_bisim!(st, DualVec<f64, f64, Dyn>, DualVec<f32, f32, Dyn>, f32, Dims::n(0));
+    conv_bisim!(st, Dual2Vec<f64, f64, Const<2>>, Dual2Vec<f32, f32, Const<2>>, f32, Dims::n(2));
+    conv_bisim!(st, Dual2Vec<f64, f64, Dyn>, Dual2Vec<f32, f32, Dyn>, f32, Dims::n(2));
+    conv_bisim!(st, Dual2Vec<f64, f64, Dyn>, Dual2Vec<f64, f64, Dyn>, f64, Dims::n(1));
+}
+
 fn universe(tier: Tier, v: &mut impl Visitor) {
     use nalgebra::{Const, Dyn};
     use num_dual::*;
@@ -443,6 +505,7 @@ fn main() {
     let mut e = Enumerate { mode: cli.mode, stats: &mut stats, axes: vec![], classes_total: 0 };
     let tier = if cli.mode == Mode::Quick { Tier::Quick } else { Tier::Thorough };
     universe(tier, &mut e);
+    conversions(e.stats);
     let axes = std::mem::take(&mut e.axes);
     let classes = e.classes_total;
     let capped = axes.iter().any(|a| a["frontier_capped"].as_bool().unwrap_or(false));
@@ -451,7 +514,7 @@ fn main() {
         mode: cli.mode,
         seed: cli.seed,
         start,
-        rule: "abstraction alpha: absent part -> zeros. (a) every operation of a 53-operation alphabet x alpha-operand tuples (each group zero or non-zero, two real parts) x ALL 2^k encodings of the zero groups as absent or explicit zeros; (b) BFS over histories of 13 accumulator updates (compound assignments with dual and scalar operands, y - acc, y / acc, neg, recip, sqrt) x y in every encoding, from every encoding of the accumulator; a state is an alpha-class (alpha value bits + the set of concrete presence patterns that reach it), de-duplicated per depth. Oracle: alpha(result) is the same number in every slot for all encodings (bisimulation), and equals the exact rational reference where no rounding can occur. Non-trivial = alpha tuple reached through more than one encoding.".into(),
+        rule: "abstraction alpha: absent part -> zeros. (a) every operation of a 53-operation alphabet, and the checked / unchecked narrowing and identity conversions of DualVec and Dual2Vec, x alpha-operand tuples (each group zero or non-zero, two real parts) x ALL 2^k encodings of the zero groups as absent or explicit zeros; (b) BFS over histories of 13 accumulator updates (compound assignments with dual and scalar operands, y - acc, y / acc, neg, recip, sqrt) x y in every encoding, from every encoding of the accumulator; a state is an alpha-class (alpha value bits + the set of concrete presence patterns that reach it), de-duplicated per depth. Oracle: alpha(result) is the same number in every slot for all encodings (bisimulation), and equals the exact rational reference where no rounding can occur. Non-trivial = alpha tuple reached through more than one encoding.".into(),
         assumptions: vec!["signed zeros are identified (0 - r vs -r); NaN equals NaN".into(), "history frontier capped per depth and type when it exceeds the cap (reported as frontier_capped)".into()],
         extra: json!({"axes": axes, "alpha_classes": classes}),
         exhaustive: !capped,
